@@ -249,7 +249,7 @@ func (c *Ctx) behavModule(dir string, methods []BMethod, cfg string, driver stri
 	if res.Exit != 0 {
 		return "", fmt.Errorf("mockery failed: %s %s", formatErrLine(res), lastLines(res.Stderr, 2))
 	}
-	out, err := runGo(dir, "test", "-count=1", "-v", "-run", "TestDriver", "./store/")
+	out, err := runGo(dir, "test", "-count=1", "-v", "-timeout", "60s", "-run", "TestDriver", "./store/")
 	if err != nil && !strings.Contains(out, "EV ") {
 		return out, fmt.Errorf("driver failed: %s", lastLines(strings.ReplaceAll(out, dir, ""), 8))
 	}
